@@ -61,7 +61,7 @@ func C11(rep *ev.Reporter, tier string) {
 	var cases []c11Case
 	names := []string{"ra", "rb", "rc", "rd"}
 	mk := func(i int, ci int, sal int64) *grl.Rule {
-		r := grl.R(names[i], grl.Sal(sal), c11Conds[ci].cond, fmt.Sprintf("F.Act(%d)", i+1), "F.I = 99")
+		r := grl.R(names[i], grl.Sal(sal), c11Conds[ci].cond, fmt.Sprintf("F.Act(%d)", i+1), "F.I = 99", fmt.Sprintf(`Retract("%s")`, names[i]))
 		return r
 	}
 	salPairs := [][]int64{{0, 0}, {1, 0}, {0, 1}, {-1, -1}, {-1, 1}, {2147483647, -2147483648}}
@@ -142,9 +142,17 @@ func C11(rep *ev.Reporter, tier string) {
 		for wi, mkw := range worlds {
 			atomic.AddInt64(&states, 1)
 			nperm := hx.NPerms(len(c.rules))
-			for chx := 0; chx < nperm*(len(worlds)+1); chx++ {
+			instRemoval := !c.remLib && len(c.removed) > 0
+			nPrior := 1 + 2*len(worlds)
+			if instRemoval {
+				nPrior += len(worlds)
+			}
+			for chx := 0; chx < nperm*nPrior; chx++ {
 				ch := chx % nperm
-				prior := chx/nperm - 1 // -1: fresh instance; else index of the world used by an earlier call
+				// -1: fresh instance; 0..1: an earlier Fetch with that world; 2..3: an earlier Execute (rules
+				// fire and retract themselves) with world prior-2; 4..5: that Execute happens BEFORE the
+				// instance-level removals
+				prior := chx/nperm - 1
 				if prior == wi {
 					continue
 				}
@@ -157,14 +165,19 @@ func C11(rep *ev.Reporter, tier string) {
 					if err != nil {
 						return "C11:instance-failed", err.Error(), false
 					}
+					if prior >= 2*len(worlds) {
+						hx.Run(b, worlds[prior-2*len(worlds)](), hx.RunOpts{KB: kb, MaxCycle: 6, NoSnapshots: true})
+					}
 					if !c.remLib {
 						for _, n := range c.removed {
 							kb.RemoveRuleEntry(n)
 						}
 					}
-					if prior >= 0 {
+					if prior >= 0 && prior < len(worlds) {
 						// an earlier call on the same instance with another fact state
 						hx.Fetch(kb, worlds[prior](), false, ch)
+					} else if prior >= len(worlds) && prior < 2*len(worlds) {
+						hx.Run(b, worlds[prior-len(worlds)](), hx.RunOpts{KB: kb, MaxCycle: 6, NoSnapshots: true})
 					}
 					w := mkw()
 					before := w.Dump()
@@ -253,5 +266,5 @@ func C11(rep *ev.Reporter, tier string) {
 		rep.Exhaustive = false
 		rep.Coverage["caps_hit"] = "time budget"
 	}
-	rep.Coverage["rule"] = "every rule set of 2 rules over 10 conditions (true, false, state-dependent, shared sub-expression, nil pointer, missing fact, kind mismatch, index out of range, parenthesised map lookup that errors in one world - shared between two shapes) x 6 salience pairs x removal sets (library- and instance-level) x both values of ReturnErrOnFailedRuleEvaluation, every rule set of 3 rules over 5 (thorough 8) conditions x 6 salience triples x 3 removal sets x flag (thorough: 4 rules), 2 fact states, EVERY rule-iteration order (k!), each call on a fresh instance AND on an instance that served an earlier call with the other fact state; states = (program, world) pairs, transitions = FetchMatchingRules calls. Oracle: returned names == non-removed rules whose condition the reference evaluator finds true (each once), model saliences non-increasing, facts unchanged, no action probe ran, error returned iff flag set and some condition fails. Non-trivial: >=2 rules satisfied."
+	rep.Coverage["rule"] = "every rule set of 2 rules over 10 conditions (true, false, state-dependent, shared sub-expression, nil pointer, missing fact, kind mismatch, index out of range, parenthesised map lookup that errors in one world - shared between two shapes) x 6 salience pairs x removal sets (library- and instance-level) x both values of ReturnErrOnFailedRuleEvaluation, every rule set of 3 rules over 5 (thorough 8) conditions x 6 salience triples x 3 removal sets x flag (thorough: 4 rules), 2 fact states, EVERY rule-iteration order (k!), each call on a fresh instance AND on an instance that served an earlier Fetch with the other fact state AND on one that served an earlier Execute (every rule retracts itself when it fires) with either fact state, the Execute placed before or after the instance-level removals; states = (program, world) pairs, transitions = FetchMatchingRules calls. Oracle: returned names == non-removed rules whose condition the reference evaluator finds true (each once), model saliences non-increasing, facts unchanged, no action probe ran, error returned iff flag set and some condition fails. Non-trivial: >=2 rules satisfied."
 }
